@@ -772,10 +772,13 @@ func validateStringMap(field string, nodes []yamlMap, offsetLine int, lines diag
 			}, lines
 		}
 		if _, ok := names[entry.key.Value]; ok {
+			lr := rangeFromYamlMaps(nodes)
+			lr.First += offsetLine
+			lr.Last += offsetLine
 			return false, ParseError{
-				Line: entry.key.Line,
+				Line: entry.key.Line + offsetLine,
 				Err:  fmt.Errorf("duplicated %s key %s", field, entry.key.Value),
-			}, rangeFromYamlMaps(nodes)
+			}, lr
 		}
 		names[entry.key.Value] = struct{}{}
 	}
